@@ -35,6 +35,12 @@ func GetLoginCookie(r *http.Request, crypter crypto.Crypter) (*LoginCookie, erro
 		return nil, fmt.Errorf("unmarshalling: %w", err)
 	}
 
+	// Other cookies (e.g. the logout cookie) are encrypted with the same key and unmarshal without error;
+	// only accept a value that actually carries the state of a login attempt.
+	if loginCookie.State == "" || loginCookie.Nonce == "" || loginCookie.CodeVerifier == "" || loginCookie.RedirectURI == "" {
+		return nil, fmt.Errorf("not a login cookie: missing state, nonce, code verifier or redirect uri")
+	}
+
 	return &loginCookie, nil
 }
 
